@@ -48,8 +48,12 @@ func (endpoint *PairSetup) ServeHTTP(response http.ResponseWriter, request *http
 	var in util.Container
 	var out util.Container
 
-	key := endpoint.context.GetConnectionKey(request)
-	session := endpoint.context.Get(key).(hap.Session)
+	session := endpoint.context.GetSessionForRequest(request)
+	if session == nil {
+		// the connection of this request was closed or replaced in the meantime
+		response.WriteHeader(http.StatusInternalServerError)
+		return
+	}
 	ctrl := session.PairSetupHandler()
 	if ctrl == nil {
 		log.Debug.Println("Create new pair setup controller")
